@@ -8,8 +8,9 @@ verif = os.path.dirname(here)
 base = json.load(open('/root/.vp/BASELINE.json'))
 props = [json.loads(l) for l in open(os.path.join(verif, 'properties.jsonl'))]
 checks = []
-for pid in sorted(specs.CHECKS):
-    s = specs.CHECKS[pid]
+READY = {k: v for k, v in specs.CHECKS.items() if v.get('ready')}
+for pid in sorted(READY):
+    s = READY[pid]
     checks.append({
         'property_id': pid,
         'quick_cmd': './check %s --tier quick' % pid,
@@ -27,7 +28,7 @@ for pid in sorted(specs.CHECKS):
     })
 na = []
 for p in props:
-    if p['id'] not in specs.CHECKS:
+    if p['id'] not in READY:
         na.append({'property_id': p['id'], 'reason': specs.NOT_APPLICABLE.get(p['id'], 'check not built yet in this round; the technique applies (plan in DESIGN.md §4), it is simply unfinished')})
 m = {
     'version': 1,
@@ -40,7 +41,7 @@ m = {
         'add_only': True,
     },
     'engines': [
-        {'name': 'rapid-harness', 'path': '/verif/check', 'serves_properties': sorted(specs.CHECKS),
+        {'name': 'rapid-harness', 'path': '/verif/check', 'serves_properties': sorted(READY),
          'kind_free_text': 'python driver that compiles in-package rapid/Hypothesis property tests against /repo via go -overlay/-modfile, shards them over 16 cores, merges coverage statistics and writes evidence'},
     ],
     'checks': checks,
